@@ -28,12 +28,15 @@ fn gen_case(mode: &str, seed: u64, idx: u64, tier: &str) -> Case {
     let mut extra = Json::Null;
     let model = match mode {
         "c03" => {
-            let mut p = Profile::mixed();
-            p.max_space = 20_000.0;
+            let mut p = if idx % 5 == 0 { Profile::clause_heavy() } else { Profile::mixed() };
+            p.max_space = p.max_space.min(20_000.0);
             gen::gen_model(&mut r, &p)
         }
+        "c01" | "c04" | "c17" | "c20" if idx % 5 == 2 => gen::gen_model(&mut r, &Profile::clause_heavy()),
         "c02" => {
-            if r.gen_bool(0.6) {
+            if idx % 5 == 0 {
+                gen::gen_model(&mut r, &Profile::clause_heavy())
+            } else if r.gen_bool(0.6) {
                 gen::gen_hard(&mut r)
             } else {
                 gen::gen_model(&mut r, &Profile::mixed())
@@ -41,7 +44,11 @@ fn gen_case(mode: &str, seed: u64, idx: u64, tier: &str) -> Case {
         }
         "c07" => {
             extra = Json::obj([("k", Json::Int(if thorough { 40 } else { 8 }))]);
-            gen::gen_hard(&mut r)
+            if idx % 5 == 0 {
+                gen::gen_model(&mut r, &Profile::clause_heavy())
+            } else {
+                gen::gen_hard(&mut r)
+            }
         }
         "c08" => {
             let extended = idx % 10 >= 7;
